@@ -4,6 +4,7 @@ R08.1 loop_progress: in LookaheadDFA::eval no path goes round the look-ahead loo
       successful read of a look-ahead token back to the loop header) without assigning the
       automaton state from the to-state (field 2) of a transition.
 R08.7 a transition is followed only behind a test that *its own* from-state equals the current state (on every path).
+R08.8 = all C07 rules re-evaluated (the automaton that eval runs on: merge keys of minimisation, order contract, k).
 R08.3 every Ok(..) returned by eval derives from prod_num / last_prod_num and lies on the
       `> INVALID_PROD` (resp. `Some(last_accepting_state)`) edge; there is no default production.
 """
@@ -11,7 +12,7 @@ from .. import cfg
 from ..dataflow import local_term, operand_term, term_str, raw_operand_place, raw_place
 from ..facts import AnchorMissing
 
-CRATES = ["parol_runtime.lib"]
+CRATES = ["parol.lib", "parol_runtime.lib"]
 
 META = {
     "explanation": "Decides the structural clause of C08: LookaheadDFA::eval can never read look-ahead token "
@@ -276,6 +277,11 @@ def check(ctx):
               "the scan over the sorted transitions stops early only when the transition's terminal is greater than the token",
               "early exit of the transition scan is not tied to `Greater` (%s): with the table sorted ascending by terminal a "
               "matching transition further down would be missed" % why6, "%s:%d" % (body.file, la.line))
+    # ---------------------------------------------------------------------------------- R08.8 = C07's rules (added after seed C08-c)
+    # eval is exact for the automaton it is given; the automaton it is given is the minimised one of the generator - its encoding
+    # order, merge keys, k and state renaming decide whether erroneous input can reach an accepting state
+    from . import c07
+    c07.check(ctx)
 
 
 def scan_complete(ctx, body, rule):
